@@ -1013,8 +1013,29 @@ func (e *nnsEngine) touch(name string) {
 	e.touched[name] = true
 }
 
-// clock resolves the Δt class of the operation that closes a block.
+// clock resolves the Δt class of the operation that closes a block. Landing
+// exactly on an expiration instant is C10's boundary ("available again from
+// that instant"): when C11 or C12 is decided the block time steps over it, so
+// that their rules never hinge on which side the instant itself belongs to.
 func (e *nnsEngine) clock(op nnsOp) uint64 {
+	dt := e.clockRaw(op)
+	if p := e.r.Prop; p == "C11" || p == "C12" {
+		now := int64(e.w.Now())
+		for again := true; again; {
+			again = false
+			for _, n := range e.m.names {
+				// (reads are evaluated one millisecond after the block)
+				if n.exp == now+int64(dt) || n.exp == now+int64(dt)+1 {
+					dt++
+					again = true
+				}
+			}
+		}
+	}
+	return dt
+}
+
+func (e *nnsEngine) clockRaw(op nnsOp) uint64 {
 	now := int64(e.w.Now())
 	switch op.Dt {
 	case 1:
@@ -1171,7 +1192,10 @@ type nnsName struct {
 	exp      int64
 	exOwners [][]byte // most recent first
 	exAdmins [][]byte
-	soa      nnsSOA
+	// the admin was last cleared by a re-registration (not by a transfer): what
+	// `properties` shows as admin is then C11's business, not C10's
+	adminByRegistration bool
+	soa                 nnsSOA
 	// vars: alternatives of the record set (one, or two after an expired name was
 	// re-registered while it still held records: DON'T-CARE zone #11)
 	vars []nnsRecSet
@@ -1546,6 +1570,7 @@ func (e *nnsEngine) predict(c *nnsCall, now int64) *nnsVerdict {
 			n.exOwners = nnsPush(n.exOwners, n.owner)
 			n.exAdmins = nnsPush(n.exAdmins, n.admin)
 			n.owner, n.admin, n.adminAlt = to, nil, false
+			n.adminByRegistration = false
 		}
 		return v
 
@@ -1600,6 +1625,7 @@ func (e *nnsEngine) predict(c *nnsCall, now int64) *nnsVerdict {
 		v.apply = func() {
 			n.exAdmins = nnsPush(n.exAdmins, n.admin)
 			n.admin, n.adminAlt = c.acc, false
+			n.adminByRegistration = false
 		}
 		return v
 
@@ -1716,6 +1742,7 @@ func (e *nnsEngine) predictRegister(c *nnsCall, now int64) *nnsVerdict {
 			nn.vars = vars
 		}
 		nn.owner, nn.admin, nn.adminAlt = c.acc, nil, false
+		nn.adminByRegistration = true
 		nn.exp = now + c.soa.expire*1000
 		nn.soa = c.soa
 		nn.soa.serial, nn.soa.serialAlt = now, -1
@@ -2011,6 +2038,7 @@ func (e *nnsEngine) step(bt *nnsTx, aer *state.AppExecResult, now int64, idx int
 	if v.tok != nil {
 		hot[v.tok.name] = true
 	}
+	softRefusal := false
 	switch {
 	case v.exp == mustRefuse && took:
 		r.Violation(orStr(v.rule, nnsRuleUnauth), v.kf, "%s by %s took effect although: %s", c.desc(), signerNames(c.signers), v.why)
@@ -2031,6 +2059,7 @@ func (e *nnsEngine) step(bt *nnsTx, aer *state.AppExecResult, now int64, idx int
 		// like for every refused call): the model stays in sync and the run
 		// goes on, so that this property's own rules see the rest of the history.
 		r.Count("foreign_refusal_not_judged." + rule)
+		softRefusal = true
 	}
 	if !took {
 		r.Count("why." + kind + "." + v.why)
@@ -2050,7 +2079,7 @@ func (e *nnsEngine) step(bt *nnsTx, aer *state.AppExecResult, now int64, idx int
 		if len(got) != 0 {
 			r.Violation("C10/refused-call-notified", "", "%s: refused but announced %v", c.desc(), got)
 		}
-		if v.tok != nil && !gasFault {
+		if v.tok != nil && !gasFault && !softRefusal {
 			e.prune(v, false)
 		}
 		return
@@ -2661,6 +2690,7 @@ func (e *nnsEngine) checkLifecycle(nr *nnsNameReads, t int64) {
 		}
 	default:
 		yes, no := false, false
+		conflictOnly := false
 		if m.ownAlive(n, t) {
 			no = true
 		} else if lvl == 2 {
@@ -2670,6 +2700,7 @@ func (e *nnsEngine) checkLifecycle(nr *nnsNameReads, t int64) {
 				switch nnsConflict(rs, x) {
 				case nnsTrueSub:
 					no = true
+					conflictOnly = true
 				case nnsNoConflict:
 					yes = true
 				default:
@@ -2687,7 +2718,13 @@ func (e *nnsEngine) checkLifecycle(nr *nnsNameReads, t int64) {
 			if n != nil {
 				exp = n.exp
 			}
-			r.Violation("C10/available-mismatch", "", "isAvailable(%s) = %v at t=%d (model: expiration %d)", x, got, t, exp)
+			rule := "C10/available-mismatch"
+			if got && !yes && conflictOnly {
+				// unavailable only because the parent holds records of sub-names
+				// of it: that clause is C12's
+				rule = "C12/available-despite-subname-records"
+			}
+			r.Violation(rule, "", "isAvailable(%s) = %v at t=%d (model: expiration %d)", x, got, t, exp)
 		}
 	}
 	if n != nil && t-n.exp >= -1 && t-n.exp <= 2 && nr.avail.Item != nil {
@@ -2711,7 +2748,13 @@ func (e *nnsEngine) checkLifecycle(nr *nnsNameReads, t int64) {
 	adm := nnsMapGet(nr.prop.Item, "admin")
 	admOK := bytes.Equal(adm, n.admin) || (n.adminAlt && adm == nil)
 	if string(nnsMapGet(nr.prop.Item, "name")) != x || nnsMapInt(nr.prop.Item, "expiration") != n.exp || !admOK {
-		r.Violation("C10/properties-mismatch", "", "properties(%s) = name %q expiration %d admin %x, model expiration %d admin %x",
+		rule := "C10/properties-mismatch"
+		if string(nnsMapGet(nr.prop.Item, "name")) == x && nnsMapInt(nr.prop.Item, "expiration") == n.exp && n.adminByRegistration {
+			// only the admin differs and no transfer is involved ("transfer …
+			// clears the admin" is C10's clause; who is admin otherwise is C11's)
+			rule = "C11/admin-of-nothing"
+		}
+		r.Violation(rule, "", "properties(%s) = name %q expiration %d admin %x, model expiration %d admin %x",
 			x, nnsMapGet(nr.prop.Item, "name"), nnsMapInt(nr.prop.Item, "expiration"), adm, n.exp, n.admin)
 	}
 }
@@ -2836,7 +2879,11 @@ type nnsWalk struct {
 	links    int      // links followed until a name without CNAME; 99 = four or more (or a cycle)
 	dangling int      // index of the first unreachable node (-1 none; 0 = x itself)
 	chainBad bool     // x's enclosing name lies below an expired ancestor
-	ambig    int      // tokens on the path with open alternatives
+	// the walk ended at a name whose own registration runs but whose ancestor
+	// chain has expired: what becomes of records there is C10's clause about
+	// parent chains, C12 is silent
+	deadChain bool
+	ambig     int // tokens on the path with open alternatives
 }
 
 func (e *nnsEngine) walk(x string, typ int64, t int64, vi int) nnsWalk {
@@ -2849,6 +2896,7 @@ func (e *nnsEngine) walk(x string, typ int64, t int64, vi int) nnsWalk {
 		if tok == nil || !m.chainAlive(tok.name, t) {
 			wk.dangling = node
 			wk.chainBad = tok != nil && node == 0
+			wk.deadChain = tok != nil
 			wk.links = node
 			return wk
 		}
@@ -2912,7 +2960,7 @@ func (e *nnsEngine) checkResolve(x string, typ int64, rd *nnsRead, t int64, suff
 		case wk.dangling > 0:
 			// DON'T CARE: a CNAME pointing at a name nobody holds — refusal or what
 			// was gathered so far
-			ok = rd.Item == nil || nnsSameStrings(got, wk.res)
+			ok = rd.Item == nil || nnsSameStrings(got, wk.res) || wk.deadChain
 			reasons = fmt.Sprintf("dangling after %d links, gathered %q", wk.dangling, wk.res)
 			r.Count("probe.resolve_dangling_cname")
 		case wk.links == 3:
